@@ -87,7 +87,15 @@ pub open spec fn th_leapfrog_post<M: Math, T: Transformation<M>>(h0: Transformed
             &&& (!(h0.kinetic_energy_kind is Microcanonical) ==> energy_of(o) - baseline <= max_err)
             &&& out.unique@
         },
-        LeapfrogResult::Divergence(_) => true,
+        // [C03.4 C05.1] a divergence is reported only for a (recoverable) density failure or for an energy error beyond
+        // the limit of the trajectory kind: one-sided for the Euclidean / exact-normal kinds, two-sided for microcanonical
+        LeapfrogResult::Divergence(info) => {
+            ||| info.logp_function_error is Some
+            ||| (info.energy_error is Some && ({
+                    let e = info.energy_error->0.r();
+                    if h0.kinetic_energy_kind is Microcanonical { abs_r(e) >= max_err } else { e > max_err }
+                }))
+        },
         // [C05.1] only unrecoverable density errors surface as Err
         LeapfrogResult::Err(e) => !e.recoverable(),
     }
